@@ -20,7 +20,7 @@ RULE = (
     "replace a token, truncate, unbalance a brace or quote); (c) a valid program with exactly one injected static error "
     "from the property's list (stray break/continue/break_loop, undefined label for jump/call, switch ending in an empty "
     "case, two defaults, statements in a message switch, label in a with-block, not on an ordinary bit test, unknown / "
-    "recursive macro, too few macro arguments, missing / cyclic import, routine in an imported file); (d) degenerate "
+    "recursive macro (also call cycles of 1-4 macros whose members partly shadow macros of an imported file), too few macro arguments, missing / cyclic import, routine in an imported file); (d) degenerate "
     "files (label-only routines, alias first, routine ids out of order / with gaps / negative, meta-attribute-only files, "
     "empty text); (e) arbitrary Unicode text and text over an ExplorerScript-like alphabet; (f) SsbScript sources behind the is-ssb-script marker line, intact, truncated or with inserted junk (they are handed to the SsbScript compiler). Oracle: the call returns or "
     "raises ParseError / SsbCompilerError / ValueError; class (c) must raise one of them and leave no routine output. "
@@ -37,7 +37,7 @@ CASES = {"quick": 6400, "thorough": 150000}
 ERRS = [
     "stray_break", "stray_continue", "stray_break_loop", "undef_jump", "undef_call", "empty_last_case", "two_defaults",
     "stmt_in_msgswitch", "label_in_with", "not_on_bit", "unknown_macro", "recursive_macro", "self_recursive_macro",
-    "too_few_args", "missing_import", "cyclic_import", "routine_in_import", "missing_lookup_import",
+    "too_few_args", "missing_import", "cyclic_import", "routine_in_import", "missing_lookup_import", "macro_cycle",
 ]
 SNIPPET = {
     "stray_break": "break;",
@@ -133,6 +133,27 @@ def inject(prog, err, at):
         files["cyc_a.exps"] = 'import "./cyc_b.exps";\nmacro ca() { inj_x(); }\n'
         files["cyc_b.exps"] = 'import "./cyc_a.exps";\nmacro cb() { inj_y(); }\n'
         return 'import "./cyc_a.exps";\n' + r.text, files
+    if err == "macro_cycle":
+        # a call cycle of 1-4 macros; each member is defined locally, and a drawn subset of the names is ALSO supplied
+        # (with a harmless body) by an imported file - the local definition shadows the imported one
+        n = 1 + at % 4
+        mask = (at // 4) % (1 << n)
+        entry = (at // 64) % n
+        names = [f"cyc{i}_zz" for i in range(n)]
+        lib = "".join(f"macro {names[i]}() {{ lib_{i}(); }}\n" for i in range(n) if mask >> i & 1)
+        pre = ""
+        if lib:
+            files["cyc_lib.exps"] = lib + "macro other_zz() { lib_o(); }\n"
+            pre = 'import "./cyc_lib.exps";\n'
+        local = "".join(f"macro {names[i]}() {{ inj_{i}(); ~{names[(i + 1) % n]}(); }}\n" for i in range(n))
+        cands = sorted(pos for tag, pos in r.marks.items() if tag[0] == "stmt" and isinstance(tag[1][-1], int))
+        if not cands:
+            return None, None
+        lines = r.text.split("\n")
+        line, col = cands[(at // 256) % len(cands)]
+        lines[line] = lines[line][:col] + f"~{names[entry]}(); " + lines[line][col:]
+        body = "\n".join(lines)
+        return (pre + local + body if at % 2 else pre + body + "\n" + local), files
     if err == "routine_in_import":
         files["has_routine.exps"] = "macro hr() { inj_x(); }\ndef 0 { inj_y(); }\n"
         return 'import "./has_routine.exps";\n' + r.text, files
